@@ -318,3 +318,29 @@ func DrawClock(h uint64) []int64 {
 	}
 	return out
 }
+
+// Fast-stop (development aid for regression runs over many broken trees; never set by the registered commands): when
+// VERIF_FAST_FILE names a path, a worker that has recorded a violation creates that file, and every worker stops at
+// the next opportunity once it exists - the driver then confirms, minimises and reports as usual.
+var fastFile = os.Getenv("VERIF_FAST_FILE")
+var fastTick int
+
+func FastStopSignal() {
+	if fastFile != "" {
+		if f, err := os.Create(fastFile); err == nil {
+			f.Close()
+		}
+	}
+}
+
+func FastStopRequested() bool {
+	if fastFile == "" {
+		return false
+	}
+	fastTick++
+	if fastTick%32 != 0 {
+		return false
+	}
+	_, err := os.Stat(fastFile)
+	return err == nil
+}
